@@ -56,6 +56,9 @@ Proof.
   - by_vm.
   - intros s Hs. each_in Hs by_vm.
   - intros _. repeat split; apply flag_boundsb_sound; by_vm.
+  - intros _. constructor; try by_vm. intros i Hi.
+    assert (Hc : i = 0 \/ i = 1 \/ i = 2 \/ i = 3) by (change (i < 4) in Hi; lia).
+    destruct Hc as [->|[->|[->| ->]]]; by_vm.
   - constructor; try by_vm.
     + constructor; try by_vm. intros v Hv. each_in Hv ltac:(first [left; reflexivity | right; by_vm]).
     + intros v Hv Hs. each_in Hv ltac:(first [discriminate Hs | intros Hx; discriminate Hx]).
@@ -74,7 +77,7 @@ Qed.
 Lemma asm_mid_bounds : MidBounds asm_E Altair asm_state.
 Proof.
   constructor.
-  - intros s2 H. vm_compute in H. inversion H. split; [apply inact_boundsb_sound|apply no_mid_saturationb_sound]; by_vm.
+  - intros s2 H. vm_compute in H. inversion H. apply no_mid_saturationb_sound. by_vm.
   - intros s3 s6 H3 H6. vm_compute in H3. inversion H3; subst s3. vm_compute in H6. inversion H6; subst s6.
     intros b Hb. each_in Hb by_vm.
 Qed.
